@@ -163,22 +163,29 @@ Theorem C14_passive_consumers_are_step : forall t0 ops,
 Proof. exact passive_is_run. Qed.
 Print Assumptions C14_passive_consumers_are_step.
 
-(* Known finding KF-C14-2. "After its cancellation the callback of a subscription is not invoked again." A small step
-   cancels u when u is in the subscription list before it and no subscription with its callback is in the list after
-   it. The clause holds for every cancellation after which no attendance under way still has the subscription ahead of
-   it (_partial: every unsubscription / deregistration that is an operation of the history proper, and those made from
-   a callback about subscriptions the attendance has already passed); the full clause is false (_refuted): the
-   attendance walks a copy of the list, and a subscription without notification interval that a consumer notified
-   earlier in the same attendance has just unsubscribed is still invoked. The harness replays the witness on the code. *)
-Definition C14_no_callback_after_cancellation_full : Prop := no_call_after_cancel_stmt true.
+(* "After its cancellation the callback of a subscription is not invoked again", for histories with acting consumers.
+   A small step cancels u when u is in the subscription list before it and no subscription with its callback is in the
+   list after it: an unsubscription or a deregistration that is an operation of the history proper, or one made from
+   inside a notification callback - then an attendance is under way that took its snapshot of the list before the
+   cancellation and may still have u ahead of it. No event after that step is a call of u: the attendance looks a
+   subscription up in the list when its turn comes (KF-C14-2, repaired: before the fix the clause held only for
+   subscriptions that no attendance under way had ahead; its witness is C14_cancellation_example below and
+   corpus/C14/cancelled_during_attendance.json). *)
+Theorem C14_no_callback_after_cancellation : no_call_after_cancel_stmt.
+Proof. exact no_call_after_cancel. Qed.
+Print Assumptions C14_no_callback_after_cancellation.
 
-Theorem C14_no_callback_after_cancellation_partial : no_call_after_cancel_stmt false.
-Proof. exact no_call_after_cancel_partial. Qed.
-Print Assumptions C14_no_callback_after_cancellation_partial.
-
-Theorem C14_no_callback_after_cancellation_refuted : ~ C14_no_callback_after_cancellation_full.
-Proof. exact no_call_after_cancel_refuted. Qed.
-Print Assumptions C14_no_callback_after_cancellation_refuted.
+(* Non-vacuity, on the former witness: two consumers without notification interval; from inside its notification the
+   first one unsubscribes the second one's subscription. The hypotheses of the theorem hold at that step (7 small steps
+   into the history), an attendance under way has the cancelled subscription ahead of it, the history comes to its end
+   and its only callback invocation is the first consumer's. *)
+Example C14_cancellation_example :
+  In kf2_victim (subs (c_st kf2_before)) /\
+  ~ In (u_cb kf2_victim) (map u_cb (subs (c_st kf2_after))) /\
+  (exists f, In f (c_stack kf2_after) /\ ahead (u_cb kf2_victim) f) /\
+  calls_in (fst (mrun 10 kf2_tbl (start 0 kf2_ops))) = [(0, [0])] /\
+  snd (mrun 10 kf2_tbl kf2_after) = true.
+Proof. exact kf2_instance. Qed.
 
 (* Non-vacuity: two consumers, overlapping subscriptions, interval 1000 ms at second resolution,
    unsubscription, deregistration and re-registration. *)
